@@ -284,6 +284,7 @@ class World:
         self.admin = self.zk.connect('admin')
         self.node_sessions = {}       # server -> client (presence owner)
         self.untold_servers = set()   # see op_bucket_create
+        self.told_buckets = set()     # bucket definitions the master has read
         self.master = None
         self.master_client = None
         self.master_gen = 0
@@ -362,6 +363,7 @@ class World:
         master client, counted in storage writes from load_model on."""
         self.master_gen += 1
         self.untold_servers.clear()
+        self.told_buckets = set(self.zk.children(z.BUCKETS) or [])
         if self.master_client is not None:
             self.zk.expire(self.master_client.client_id[0])
         client = self.zk.connect('master%d' % self.master_gen)
@@ -560,9 +562,19 @@ class World:
                     for name in names:
                         self._truth_server(name)
                         truth.absent.pop(name, None)
-                        self.untold_servers.discard(name)
+                        parent = (self._zk_obj(z.path.server(name)) or
+                                  {}).get('parent')
+                        if parent in self.told_buckets:
+                            self.untold_servers.discard(name)
+                        else:
+                            # told about the server before it was told about
+                            # the server's rack: it could not load it
+                            self.untold_servers.add(name)
                 elif resource in ('cell', 'buckets'):
                     truth.absent.clear()
+                    if resource == 'buckets':
+                        self.told_buckets = set(
+                            self.zk.children(z.BUCKETS) or [])
                 elif resource == 'server_state':
                     if payload:
                         name, state = payload[0], payload[1]
@@ -1912,6 +1924,35 @@ class Generator:
         return {'op': 'srv_delete', 'name': self.rng.choice(servers),
                 'raw': True}
 
+    def g_reparent_to_undefined_rack(self, world):
+        """A server that holds instances is moved, in its record, to a rack
+        that is not defined yet (the rack's definition arrives later).  The
+        unchanged master cannot handle that 'servers' event at all (it
+        stops; the next master does not load the server and cleans up)."""
+        stored = world.stored_placement()
+        servers = sorted({s for recs in stored.values() for s, _d in recs
+                          if world.zk.nodes.get(z.path.server(s))})
+        if not servers:
+            return None
+        name = self.rng.choice(servers)
+        data = world._zk_obj(z.path.server(name)) or {}
+        if not data.get('parent'):
+            return None
+        pods = [p for p, _r in self.config['topology']]
+        self.nlate = getattr(self, 'nlate', 0) + 1
+        rack = 'rack:late%d' % self.nlate
+        spec = {'op': 'srv_set', 'name': name, 'parent': rack,
+                'partition': data.get('partition') or '_default',
+                'memory': data.get('memory'), 'cpu': data.get('cpu'),
+                'disk': data.get('disk'), 'traits': data.get('traits') or [],
+                'up_since': data.get('up_since')}
+        self.follow.extend([
+            {'op': 'drain'}, {'op': 'master_cycle', 'focus': True},
+            {'op': 'bucket_create', 'name': rack,
+             'parent': self.rng.choice(pods)},
+            {'op': 'drain'}, {'op': 'master_cycle'}])
+        return spec
+
     def g_undefined_server_event(self, world):
         """The definition of a server that holds instances is deleted and the
         running master is told with the list-less 'servers' event; the next
@@ -2047,7 +2088,7 @@ OP_WEIGHTS = [
     ('pending_start_then_down', 2), ('servers_reload_all', 1),
     ('undefined_server_failover', 5), ('stale_record_failover', 3),
     ('m_probe', 0), ('bucket_deleted_failover', 2),
-    ('undefined_server_event', 4),
+    ('undefined_server_event', 4), ('reparent_to_undefined_rack', 2),
 ]
 
 
